@@ -966,6 +966,51 @@ def _trait_args(trait_ref):
     return out
 
 
+def check_cursor_position_carried(ctx, F):
+    """A function that takes a cursor apart (`into_buf_and_pos`) and hands back a value that contains a cursor again is a
+    converter: the position it took out goes into what it builds (mirrored, for a reversal).  Dropping it and starting the new
+    cursor at an end of the buffer is right only for a cursor that was there already - a decoder that has been read from, or
+    sought, silently restarts.  (A function that only returns the buffer, e.g. to give it back with an error, is no converter.)"""
+    n = 0
+    for b in F.bodies:
+        if b.promoted is not None or '::tests' in b.defpath or b.defpath.startswith(('pybindings', '<pybindings')) or b.dk not in ('Fn', 'AssocFn'):
+            continue
+        if not any(str((callee(t) or {}).get('def', '')).endswith('Cursor::<Word, Buf>::into_buf_and_pos') for _, t in b.calls()):
+            continue
+        sig = b.raw.get('sig') or ''
+        rty = sig.split(' -> ', 1)[1] if ' -> ' in sig else ''
+        if 'Cursor<' not in rty:
+            continue
+        n += 1
+        key = 'R6/cursor-position-carried/' + b.defpath
+        role = 'a converter that takes a cursor apart puts its position into the cursor it builds'
+        try:
+            _, paths = rules.evaluate(b)
+        except sym.TooManyPaths:
+            ctx.unresolved('R6', role, b.defpath, 'too many paths', key=key)
+            continue
+        ctx.touch(b)
+        bad = None
+        for r in paths or []:
+            if r.end != 'return' or r.ret is None:
+                continue
+            for e in r.events:
+                if e['kind'] == 'call' and str(e['callee']).endswith('into_buf_and_pos'):
+                    res = e['result']
+                    is_buf = lambda x: isinstance(x, tuple) and len(x) == 3 and x[0] == 'proj' and x[1] == res and x[2] == ('f', '0')
+                    rebuilt = sym.contains(r.ret, lambda x: isinstance(x, tuple) and x and ((x[0] == 'call' and 'Cursor' in str(x[1])) or (x[0] == 'agg' and isinstance(x[1], tuple) and x[1][0] == 'adt' and str(x[1][1]).endswith('Cursor'))) and sym.contains(x, is_buf))
+                    if not rebuilt:
+                        continue          # the buffer is handed back as it is (e.g. with an error): no cursor is built from it
+                    pos_used = sym.contains(r.ret, lambda x: isinstance(x, tuple) and len(x) == 3 and x[0] == 'proj' and x[1] == res and x[2] == ('f', '1'))
+                    if not pos_used:
+                        bad = bad or ('the position taken out of the cursor at %s does not reach the returned value: the new cursor starts at an end of the buffer whatever had been read or sought before' % e['span'].split('-')[0])
+        if bad:
+            ctx.bad('R6', role, b.defpath, bad, key=key, loc=rules.loc(b))
+        else:
+            ctx.ok('R6', role, b.defpath, 'the position component flows into the result on every returning path', key=key)
+    return n
+
+
 def run(ctx):
     for cfg, F in ctx.facts_by_config.items():
         if cfg != 'default':
@@ -981,6 +1026,7 @@ def run(ctx):
         check_maybe_full_sources(ctx, F)
         check_into_reversed(ctx, F)
         check_sticky_and_delegation(ctx, F)
+        check_cursor_position_carried(ctx, F)
         import props.C20 as c20
         c20.check_size_hint_arithmetic(ctx, F, file_suffix='backends.rs')      # a sink that sizes an allocation by a loose size_hint panics where the write should succeed
     ctx.assume('SafeBuf contract: as_ref()/as_mut() of a SafeBuf never shrink (unsafe trait, implementors are std types only; checked under C20)')
